@@ -109,6 +109,28 @@ def translate(ctx):
     f = ctx.lean / "Gama" / "Gen" / "StatsGen.lean"
     if not f.exists() or f.read_text() != text:
         f.write_text(text)
+    # round 9: the statistic sites of the XML writer, operands resolved to LocalNetwork accessor calls
+    try:
+        text = tr_stats.gen_xml_sites(ctx.repo)
+    except tr_stats.Unreadable as e:
+        raise TieBroken("c09_stats translator (xml statistic sites)", str(e))
+    except (OSError, IndexError, ValueError, KeyError) as e:
+        raise TieBroken("c09_stats translator (xml statistic sites)", repr(e))
+    f = ctx.lean / "Gama" / "Gen" / "StatsXmlSites.lean"
+    if not f.exists() or f.read_text() != text:
+        f.write_text(text)
+    # ... and C12's table of the same writer (Gen/XmlSites.lean, tools/gen/c12_sites.py: same generator and content as
+    # c12.translate), so that the join in Props/C09Xml.lean compares two tables of the SAME tree
+    try:
+        import c12_sites
+        text = c12_sites.generate(ctx.repo)[0]
+    except c12_sites.SitesError as e:
+        raise TieBroken("c12_sites (run by C09)", str(e))
+    except OSError as e:
+        raise TieBroken("c12_sites (run by C09)", repr(e))
+    f = ctx.lean / "Gama" / "Gen" / "XmlSites.lean"
+    if not f.exists() or f.read_text() != text:
+        f.write_text(text)
     # Cluster<Observation>::update() (numbering of the observations of a cluster), Cluster::stdDev, Observation::stdDev
     try:
         text = tr_cluster.gen(ctx.repo)
